@@ -80,6 +80,9 @@ func scanScenarios(tier string) []scanScenario {
 			{true, nameWith("i", 4, 1, 0)},            // lands in a fresh bucket, no resize
 			{false, init[1]}, {false, init[4]}, {false, init[0]}, {false, "*"},
 		}
+		if kind == "scan" {
+			g.Pool = append(g.Pool, scanMut{false, "!" + init[2]})
+		}
 		if thorough {
 			g.MaxMut = 3
 			g.Counts = []int{1, 2, 3, 5, 6, 7, 10}
@@ -105,6 +108,9 @@ func scanScenarios(tier string) []scanScenario {
 			{false, b},  // removal runs the check: 64 -> 32 (c,d still need 32)
 			{false, d},  // a later removal can take it to 16
 			{false, others[0]}, {true, b}, {true, nameWith("x", 6, 33, 0)}, {false, "*"},
+		}
+		if kind == "scan" {
+			s.Pool = append(s.Pool, scanMut{false, "!" + b}, scanMut{false, "!" + d})
 		}
 		if thorough {
 			s.MaxMut = 3
@@ -362,6 +368,23 @@ func runScanPlan(sc *scanScenario, pl scanPlan) (res scanResult) {
 					for _, n := range all {
 						rem(n)
 					}
+					lastMutCall = calls
+					mi++
+					continue
+				}
+				if strings.HasPrefix(m.Name, "!") {
+					// the key's deadline passes while the iteration is open: it stays in the table until
+					// something reclaims it (keyspace SCAN only; a hash or set expires as a whole)
+					n := m.Name[1:]
+					if sc.Kind != "scan" || !present[n] {
+						res = scanResult{Status: "skip"}
+						done = true
+						return
+					}
+					do("PEXPIRE", n, "1")
+					verifrt.Advance(5 * time.Millisecond)
+					delete(present, n)
+					delete(always, n)
 					lastMutCall = calls
 					mi++
 					continue
